@@ -435,8 +435,16 @@ func genDag(r *corr.Run, honest bool) ([]*tnode, map[string]*chInfo, *interner) 
 func treeLevelCase(r *corr.Run) {
 	mode := r.Intn(100)
 	if mode < 25 {
-		nodes, info, _ := genDag(r, true)
-		treeLevelClosedBatch(r, nodes, info)
+		var nodes []*tnode
+		var info map[string]*chInfo
+		protocol := r.Chance(60)
+		if protocol {
+			nodes, info = genHonest(r)
+			r.Count("treelevel.closed.gen.protocol")
+		} else {
+			nodes, info, _ = genDag(r, true)
+		}
+		treeLevelClosedBatch(r, nodes, info, protocol)
 		return
 	}
 	nodes, info, in := genDag(r, false)
@@ -742,7 +750,7 @@ func treeLevelDeterminism(r *corr.Run, nodes []*tnode, info map[string]*chInfo) 
 // batch, with duplicates. The batch is closed (everything it needs is in it or already attached), so whatever the
 // order inside it every change must end up attached (model: `add_confluent`), and two different orders must
 // present the same sequence.
-func treeLevelClosedBatch(r *corr.Run, nodes []*tnode, info map[string]*chInfo) {
+func treeLevelClosedBatch(r *corr.Run, nodes []*tnode, info map[string]*chInfo, protocol bool) {
 	build := func(variant int) (*objecttree.Tree, []string, string) {
 		tr := &objecttree.Tree{}
 		var trace []string
@@ -841,9 +849,154 @@ func treeLevelClosedBatch(r *corr.Run, nodes []*tnode, info map[string]*chInfo) 
 			return
 		}
 	}
+	// reduce is only judged on DAGs the honest protocol can produce (previous ids = all heads of the creator's state,
+	// snapshot base = its root): on other shapes reduceTree legitimately leaves unreachable changes attached
+	if protocol {
+		if msg := reduceOracle(r, t2, its[1]); msg != "" {
+			tlViolate(r, "C06", "treelevel.closed.reduce", msg, append(trace, "reduce"))
+			return
+		}
+	}
 	if !eqStr(its[0], its[1]) {
 		tlViolate(r, "C06", "treelevel.closed.order", fmt.Sprintf("the same closed batch is presented as %s after one inner order and as %s after another", join(its[0]), join(its[1])), trace)
 		return
 	}
 	r.Case(strings.Join(trace, ";"), len(nodes) >= 4)
+}
+
+// genHonest: a DAG produced by the abstract honest protocol. Every new change is created by a "replica" whose state
+// is an arbitrary ancestor-closed set of the changes so far: its previous ids are ALL heads of that state (an
+// antichain), its snapshot base is the state's in-memory root - the newest snapshot common to the snapshot chains of
+// all heads (what reduceTree computes), or an older snapshot on that root's chain (a replica that reduced less).
+// Snapshots are frequent, so chains of snapshots and heads joining the chain at different depths are common.
+func genHonest(r *corr.Run) ([]*tnode, map[string]*chInfo) {
+	n := 3 + r.Intn(r.Pick(8, 11))
+	alph := []string{"ab", "abc", "01"}[r.Intn(3)]
+	used := map[string]bool{}
+	fresh := func() string {
+		for {
+			l := 1 + r.Intn(3)
+			b := make([]byte, l)
+			for i := range b {
+				b[i] = alph[r.Intn(len(alph))]
+			}
+			if !used[string(b)] {
+				used[string(b)] = true
+				return string(b)
+			}
+		}
+	}
+	nodes := []*tnode{{id: fresh(), isSnap: true}}
+	by := map[string]*tnode{nodes[0].id: nodes[0]}
+	chain := func(id string) []string { // id's snapshot chain, nearest first (starting at its base)
+		var res []string
+		for cur := by[id].snap; cur != ""; cur = by[cur].snap {
+			res = append(res, cur)
+		}
+		return res
+	}
+	for i := 1; i < n; i++ {
+		// the creator's state: an ancestor-closed set
+		in := map[string]bool{nodes[0].id: true}
+		var up func(id string)
+		up = func(id string) {
+			if in[id] {
+				return
+			}
+			in[id] = true
+			for _, p := range by[id].prevs {
+				up(p)
+			}
+		}
+		pct := []int{30, 60, 100}[r.Intn(3)]
+		for _, nd := range nodes {
+			if r.Chance(pct) {
+				up(nd.id)
+			}
+		}
+		hasChild := map[string]bool{}
+		for id := range in {
+			for _, p := range by[id].prevs {
+				hasChild[p] = true
+			}
+		}
+		var heads []string
+		for _, nd := range nodes {
+			if in[nd.id] && !hasChild[nd.id] {
+				heads = append(heads, nd.id)
+			}
+		}
+		// the state's root
+		var root string
+		if len(heads) == 1 && by[heads[0]].isSnap {
+			root = heads[0]
+		} else {
+			common := chain(heads[0])
+			for _, h := range heads[1:] {
+				ch := idSet(chain(h))
+				var keep []string
+				for _, x := range common {
+					if ch[x] {
+						keep = append(keep, x)
+					}
+				}
+				common = keep
+			}
+			root = common[0] // chains all end in the tree root
+		}
+		if r.Chance(25) { // a replica that has reduced less
+			if c := append([]string{root}, chain(root)...); len(c) > 1 {
+				root = c[r.Intn(len(c))]
+			}
+		}
+		nd := &tnode{id: fresh(), prevs: heads, snap: root, isSnap: r.Chance(35)}
+		nodes = append(nodes, nd)
+		by[nd.id] = nd
+	}
+	info := map[string]*chInfo{}
+	for _, nd := range nodes {
+		info[nd.id] = nd.info()
+	}
+	return nodes, info
+}
+
+// reduceOracle: reducing a completely attached honest tree must keep a VIEW: everything that stays attached is
+// presented (nothing is left attached but unreachable from the new root), every head stays in it, and the view
+// presents the previous sequence restricted to what it holds.
+func reduceOracle(r *corr.Run, t *objecttree.Tree, before []string) string {
+	panicked := ""
+	func() {
+		defer func() {
+			if p := recover(); p != nil {
+				panicked = fmt.Sprint(p)
+			}
+		}()
+		t.VerifReduce()
+	}()
+	if panicked != "" {
+		return "reduceTree panicked: " + panicked
+	}
+	var it []string
+	t.IterateSkip(t.RootId(), func(c *objecttree.Change) bool { it = append(it, c.Id); return true })
+	r.Count("treelevel.closed.reduce")
+	if len(it) < len(before) {
+		r.Count("treelevel.closed.reduce.moved")
+	}
+	if len(t.Heads()) >= 3 {
+		r.Count("treelevel.closed.reduce.heads>=3")
+	}
+	held := t.VerifAttachedIds()
+	if !eqStr(sortedCopy(it), held) {
+		return fmt.Sprintf("after reduce to %s the tree holds %s but presents %s", t.RootId(), join(held), join(sortedCopy(it)))
+	}
+	set := idSet(it)
+	for _, h := range t.Heads() {
+		if !set[h] {
+			return fmt.Sprintf("after reduce to %s head %s is not presented (%s)", t.RootId(), h, join(it))
+		}
+	}
+	if rs := restrict(before, set); !eqStr(rs, it) {
+		return fmt.Sprintf("after reduce to %s the tree presents %s, the previous sequence restricted to the view is %s", t.RootId(), join(it), join(rs))
+	}
+	return ""
 }
